@@ -521,6 +521,10 @@ func c39Run(c c39Case) verifkit.Result {
 		labels = append(labels, "port-suffix")
 	}
 
+	if c.Mode != "decode" && (c.Fields.DeviceOS < 0 || c.Fields.DeviceOS > 15) {
+		// only the decode direction can meet a device id Gate has no name for
+		c.Fields.DeviceOS = ((c.Fields.DeviceOS % 16) + 16) % 16
+	}
 	switch c.Mode {
 	case "decode":
 		enc := c39RefEncrypt(c.Key, c.IV, []byte(c39RefToString(c.Fields)))
@@ -535,8 +539,13 @@ func c39Run(c c39Case) verifkit.Result {
 		if bd == nil {
 			return verifkit.Fail("decode:nil-data", "nil data without error")
 		}
-		if got := c39FromGate(bd); got != c.Fields {
-			return verifkit.Fail("decode:fields", "decoded fields differ:\n got  %+v\n want %+v", got, c.Fields)
+		want := c.Fields
+		if want.DeviceOS < 0 || want.DeviceOS > 15 {
+			want.DeviceOS = 0 // Floodgate's DeviceOs.fromId: an id without a name is UNKNOWN
+			labels = append(labels, "device-os-id-without-name")
+		}
+		if got := c39FromGate(bd); got != want {
+			return verifkit.Fail("decode:fields", "decoded fields differ:\n got  %+v\n want %+v", got, want)
 		}
 		if orig != c.Host {
 			return verifkit.Fail("decode:hostname", "original hostname %q, want %q", orig, c.Host)
@@ -705,7 +714,8 @@ func c39GenFields(t *rapid.T, interop bool) c39Fields {
 		rapid.Int64Range(1, 1<<62),
 		rapid.SampledFrom([]int64{1, 9, 10, 281474976710655, 1<<63 - 1, -1, -(1 << 63)}),
 	).Draw(t, "xuid")
-	f.DeviceOS = rapid.IntRange(0, 15).Draw(t, "deviceOS")
+	f.DeviceOS = rapid.OneOf(rapid.IntRange(0, 15), rapid.IntRange(0, 15), rapid.IntRange(0, 15),
+		rapid.SampledFrom([]int{16, 17, -1, 15, 14, 100, 1<<31 - 1, -(1 << 31)})).Draw(t, "deviceOS")
 	f.Language = rapid.OneOf(rapid.SampledFrom([]string{"en_US", "de_DE", "zh_CN", ""}),
 		rapid.Custom(func(t *rapid.T) string { return c39GenText(t, "language", true) })).Draw(t, "languagePick")
 	f.UIProfile = rapid.OneOf(rapid.IntRange(0, 1), rapid.IntRange(-3, 300), rapid.SampledFrom([]int{1<<31 - 1, -(1 << 31)})).Draw(t, "uiProfile")
